@@ -329,7 +329,10 @@ def _check_method(B, obj, what, case, sy, q, Q, tmpdir, rng):
         return None
     if what == "sij_ql_Ql":
         csv = os.path.join(tmpdir, "sum_sij.csv") if case.endswith("csv") else None
-        for c in (0.7, float(rng.uniform(0.0, 0.9)), float(rng.uniform(-0.9, -0.05))):
+        first = obj.sij_ql_Ql(coarse_graining=cg, c=0.7, outputqlQl=None, outputsij=None)
+        tie = float(np.asarray(first[0])[0, 2]) if isinstance(first, list) and len(first) and np.asarray(first[0]).shape[1] > 2 else 0.3
+        # thresholds: the default, a positive and a negative one, and one equal to a stored s_ij (a tie: '>' must not count it)
+        for c in (0.7, float(rng.uniform(0.0, 0.9)), float(rng.uniform(-0.9, -0.05)), tie):
             got = obj.sij_ql_Ql(coarse_graining=cg, c=c, outputqlQl=csv, outputsij=None)
             if not isinstance(got, list) or len(got) != T:
                 return f"returned {type(got).__name__} of length {len(got) if hasattr(got, '__len__') else '?'}; expected a list with one array per frame ({T})"
@@ -349,8 +352,8 @@ def _check_method(B, obj, what, case, sy, q, Q, tmpdir, rng):
                             return f"frame {s_}: s({i},{j}) = {a[i, 2 + jj]!r}, eq. (5) gives {want!r}"
                         if abs(want) > 1 + 1e-9:
                             return f"|s_ij| > 1: {want}"
-                        counts[s_, i] += int(want > c)
-                        near[s_, i] |= abs(want - c) < 1e-5
+                        # the count is taken over the returned (float32) s_ij, compared as numpy compares them with a Python float
+                        counts[s_, i] += int(np.float32(a[i, 2 + jj]) > np.float32(c))
                     if np.any(a[i, 2 + len(nb_):] != 0):
                         return f"frame {s_}, particle {i}: padding beyond cn is not 0"
             if csv:
